@@ -172,7 +172,7 @@ pub fn run_check(ctx: &Ctx) -> i32 {
         "model_checking",
         RULE,
         &[
-            "alphabets F (63 fragments) and B16 as listed in DESIGN.md §1.2; nothing is claimed beyond the stated length bounds",
+            "alphabets F (70 fragments) and B16 as listed in DESIGN.md §1.2; nothing is claimed beyond the stated length bounds",
             "round-trip exception decided by encoding_rs (decode_without_bom_handling + encode)",
         ],
         true,
